@@ -15,11 +15,11 @@ from pel.peltool import peltool
 FUNCTIONS = ["peltool.main (-f / -j branches)", "peltool.parseAndWriteOutput", "peltool.parseAndPrintPELFile",
              "peltool.parsePEL", "peltool.considerPEL"]
 HARNESSES = [
-    {"fn": "h_json_clean", "cases": ["good", "good/E", "good/H", "good/s", "trunc", "trunc/E", "junk", "two", "two/E", "good/E:leftover"],
-     "quick_cases": ["good", "good/H", "trunc/E", "two/E", "good/E:leftover"], "timeout": {"quick": 90, "thorough": 300}},
+    {"fn": "h_json_clean", "cases": ["good", "good/E", "good/H", "good/s", "trunc", "trunc/E", "cut/E", "junk", "two", "two/E", "good/E:leftover"],
+     "quick_cases": ["good", "good/H", "trunc/E", "cut/E", "two/E", "good/E:leftover"], "timeout": {"quick": 90, "thorough": 300}},
     {"fn": "h_long_name", "cases": ["255", "241"], "timeout": {"quick": 90, "thorough": 300}},
-    {"fn": "h_file_clean", "cases": ["good", "good/E", "good/H", "good:hex/E", "trunc", "trunc/E", "junk"],
-     "quick_cases": ["good", "good:hex/E", "trunc/E", "junk"], "timeout": {"quick": 90, "thorough": 300}},
+    {"fn": "h_file_clean", "cases": ["good", "good/E", "good/H", "good:hex/E", "trunc", "trunc/E", "cut/E", "junk"],
+     "quick_cases": ["good", "good:hex/E", "trunc/E", "cut/E", "junk"], "timeout": {"quick": 90, "thorough": 300}},
 ]
 BOUNDS = {"fault step": "symbolic in 0..4 (0 = no fault; --file: 0..3, --hex: 0..5) over the output operations open, write, flush, close, print; errno symbolic in {ENOSPC, EPIPE, EIO}",
           "log": "one (case 'two': two) PEL(s) with symbolic severity class {0x00,0x40} and symbolic hidden / report flag "
@@ -39,6 +39,8 @@ def _content(kind, eid, sev, flags):
         return _pel(eid, sev, flags)
     if kind == "trunc":
         return _pel(eid, sev, flags)[:-2]
+    if kind == "cut":           # cut exactly at the start of the last section
+        return _pel(eid, sev, flags)[:-11]
     return b"this is not a PEL at all"
 
 
